@@ -414,7 +414,7 @@ func planC11(tier string, root *simcore.RNG) *plan {
 		}
 		pl.extra = map[string]any{"exhaustive_subspace": "item counts 0..1100 x {singletons, one batch, batches of five} x single producer, sinks in rotation"}
 	}
-	pl.rule = "episode = scripted Render3/Render2 emitting uniquely numbered items (seeded count, batch partition incl. empty/nil/over-threshold batches, 1..4 producer goroutines) or a real renderer behind a tap, through the real buffer/channel/consumer into one of ToTriangles/ToSTL/To3MF/ToDXF/ToSVG under a seeded schedule (fifo, lifo, uniform, pct, starve(consumer|renderer|producer i), burst) with a seeded subset of consumer hooks active; oracle = decoded sink equals what was written (sequence for one producer, multiset otherwise), evaluated inside the calling goroutine the moment the call returns and again at quiescence. Non-trivial = the scheduler had >= 2 parked goroutines to choose from at >= 1 step; distinct = distinct trace hash."
+	pl.rule = "episode = scripted Render3/Render2 emitting uniquely numbered items (seeded count, batch partition incl. empty/nil/over-threshold batches, 1..4 producer goroutines) or a real renderer behind a tap, through the real buffer/channel/consumer into one of ToTriangles/ToSTL/To3MF/ToDXF/ToSVG under a seeded schedule (fifo, lifo, uniform, pct, starve(consumer|renderer|producer i), burst) with a seeded subset of consumer hooks active; a sixth of the episodes with a slow consumer in real time (3..6 ms at every k-th hook arrival); trigger sweeps (the consumer is held back and let through exactly when another goroutine is parked at the k-th distinct instrumented code location, k = 1..14, every sink); outputs of 2^16 +- 1 .. 2^17 + 1 items for every sink on both builds; oracle = decoded sink equals what was written (sequence for one producer, multiset otherwise), evaluated inside the calling goroutine the moment the call returns and again at quiescence. Non-trivial = the scheduler had >= 2 parked goroutines to choose from at >= 1 step; distinct = distinct trace hash."
 	pl.assume = []string{
 		"interleaving is controlled at seam granularity (producer Write calls, consumer loop iterations, final flush/encode/save); code between two yields runs at full speed; interleavings inside Write/Close are judged by the race detector in the episodes that run on the -race build (about half of the multi-producer ones, a sixth of the rest)",
 		"file sinks are decoded by the harness's own STL/3MF(zip+xml)/DXF/SVG readers",
